@@ -23,7 +23,7 @@ CORPORA = {
     "getters": dict(model="MC_Getters", quick=dict(MaxTags=3), thorough=dict(MaxTags=4), profiles=DEV_REL, place="end"),
     "dst": dict(model="MC_Dst", quick=dict(DstExtra=9), thorough=dict(DstExtra=33), profiles=DEV_REL, place="both"),
     "fb": dict(model="MC_Fb", quick={}, thorough={}, profiles=DEV_REL, place="both"),
-    "efi": dict(model="MC_Efi", quick=dict(MaxD=56, LCap=64), thorough=dict(MaxD=128, LCap=200), profiles=DEV_REL, place="both"),
+    "efi": dict(model="MC_Efi", quick=dict(MaxD=56, LCap=64), thorough=dict(MaxD=96, LCap=128), profiles=DEV_REL, place="both"),
     # a thin slice of the EFI corpus for C05 (extents of what iteration and Debug hand out): sizes around the 40-byte descriptor
     "efi5": dict(model="MC_Efi", quick=dict(MaxD=56, LCap=64, EfiSizeSet="{0, 8, 24, 39, 40, 48}"), thorough=dict(MaxD=128, LCap=200, EfiSizeSet="{0, 1, 8, 16, 24, 32, 39, 40, 41, 48, 56, 64, 80}"),
                  profiles=DEV_REL, place="both"),
